@@ -54,11 +54,12 @@ func c03Config(reg3 bool) world.Config {
 }
 
 type c03File struct {
-	f     *sfile
-	size  int64    // declared FileSize (the reward weight); the Merkle tree is over the real bytes
-	list  []string // join order
-	fail  map[string]bool
-	young bool // posted late, so that it is still inside its first window at the reward block under test
+	payOnce bool // posted with a one-time payment (no plan space needed: used for sizes no plan can hold)
+	f       *sfile
+	size    int64    // declared FileSize (the reward weight); the Merkle tree is over the real bytes
+	list    []string // join order
+	fail    map[string]bool
+	young   bool // posted late, so that it is still inside its first window at the reward block under test
 }
 
 func perms(xs []string) [][]string {
@@ -159,7 +160,12 @@ func c03Run(env world.Env, files []c03File, extraGauge bool, reg3 bool) mc.CaseR
 	post := func(i int) {
 		fl := files[i]
 		starts[i] = env.Ctx().BlockHeight()
-		mustOK(env.Deliver(storagetypes.NewMsgPostFile(u, fl.f.merkle, fl.size, 0, 0, 3, "{}")), "PostFile")
+		pm := storagetypes.NewMsgPostFile(u, fl.f.merkle, fl.size, 0, 0, 3, "{}")
+		if fl.payOnce {
+			pm.MaxProofs = 1
+			pm.Expires = starts[i] + 200_000
+		}
+		mustOK(env.Deliver(pm), "PostFile")
 		for _, p := range fl.list {
 			item, hl := fl.f.proofFor(0)
 			ok, e := postProofOK(w, env.Deliver(storagetypes.NewMsgPostProof(w.A(p).Bech, fl.f.merkle, u, starts[i], item, hl, 0)))
@@ -240,8 +246,11 @@ func c03Run(env world.Env, files []c03File, extraGauge bool, reg3 bool) mc.CaseR
 		}
 	}
 	// reference: who met the obligation for which file
-	weight := map[string]int64{} // prover -> Σ size of files it is counted for
-	var listedBytes, creditedBytes int64
+	weight := map[string]sdk.Int{} // prover -> Σ size of files it is counted for (arbitrary precision: sizes may be near 2^63)
+	for _, p := range c03Provers {
+		weight[p] = sdk.ZeroInt()
+	}
+	listedBytes, creditedBytes := sdk.ZeroInt(), sdk.ZeroInt()
 	failed := map[string]int64{}
 	var vs []mc.Viol
 	pat := ""
@@ -256,10 +265,10 @@ func c03Run(env world.Env, files []c03File, extraGauge bool, reg3 bool) mc.CaseR
 		fileAfter, found := getFile(w, ctx, fl.f.merkle, u, starts[i])
 		for _, p := range fl.list {
 			met := fl.young || !fl.fail[p]
-			listedBytes += fl.size
+			listedBytes = listedBytes.AddRaw(fl.size)
 			if met {
-				weight[p] += fl.size
-				creditedBytes += fl.size
+				weight[p] = weight[p].AddRaw(fl.size)
+				creditedBytes = creditedBytes.AddRaw(fl.size)
 				if !found || !proverListed(fileAfter, w.A(p).Bech) {
 					vs = append(vs, viol("counted-prover-stays", "removed", "file %d list %s: %s met its obligation but was removed", i, failDesc(fl.list, fl.fail), p))
 				}
@@ -278,23 +287,23 @@ func c03Run(env world.Env, files []c03File, extraGauge bool, reg3 bool) mc.CaseR
 		}
 	}
 	// payouts
-	okWith := func(D int64) (bool, string) {
-		if D == 0 {
+	okWith := func(D sdk.Int) (bool, string) {
+		if D.IsZero() {
 			return false, "D=0"
 		}
 		for _, p := range c03Provers {
 			for _, dn := range []string{"ujkl", "uatom"} {
 				got := deltaOf(d, w.A(p).Bech, dn)
-				want := sdk.NewDec(weight[p]).QuoInt64(D).MulInt(released[dn]).TruncateInt()
+				want := weight[p].ToDec().QuoInt(D).MulInt(released[dn]).TruncateInt()
 				diff := got.Sub(want)
 				if diff.Abs().GT(sdk.OneInt()) {
-					return false, fmt.Sprintf("%s %s: paid %s, share %d/%d of %s = %s", p, dn, got, weight[p], D, released[dn], want)
+					return false, fmt.Sprintf("%s %s: paid %s, share %s/%s of %s = %s", p, dn, got, weight[p], D, released[dn], want)
 				}
 			}
 		}
 		return true, ""
 	}
-	anyWeight := creditedBytes > 0
+	anyWeight := creditedBytes.IsPositive()
 	if anyWeight {
 		ok1, why1 := okWith(listedBytes)
 		ok2, why2 := okWith(creditedBytes)
@@ -307,7 +316,7 @@ func c03Run(env world.Env, files []c03File, extraGauge bool, reg3 bool) mc.CaseR
 		for _, p := range c03Provers {
 			v := deltaOf(d, w.A(p).Bech, dn)
 			paid = paid.Add(v)
-			if weight[p] == 0 && !v.IsZero() {
+			if weight[p].IsZero() && !v.IsZero() {
 				vs = append(vs, viol("uncounted-receive-nothing", "paid", "%s was not counted but its %s balance changed by %s", p, dn, v))
 			}
 		}
@@ -354,6 +363,21 @@ func c03Enum(thorough bool) mc.Enum {
 					all[p] = true
 				}
 				return c03Run(env, []c03File{{f: bySize[12], size: 12, list: l, fail: all, young: true}}, false, reg3)
+			}})
+		}
+	}
+	// sizes near the top of the accepted range: the size sums of a reward block must not wrap around
+	hugeFiles := []*sfile{mkFile(seqBytes(8, 71), 4), mkFile(seqBytes(8, 72), 4), mkFile(seqBytes(8, 73), 4)}
+	for _, sz := range []int64{1 << 62, 6_400_000_000_000_000_000, 1<<63 - 1} {
+		for _, assign := range [][]string{{"P1", "P2", "P2"}, {"P1", "P1", "P2"}, {"P1", "P2", "P3"}, {"P1", "P2"}} {
+			sz, assign := sz, assign
+			e.Cases = append(e.Cases, mc.Case{Desc: fmt.Sprintf("huge|size=%d|provers=%s", sz, strings.Join(assign, ",")), Run: func(env world.Env) mc.CaseResult {
+				var fs []c03File
+				for i, p := range assign {
+					// sizes beyond the real bytes cannot be re-proven; young files are counted without a second proof
+					fs = append(fs, c03File{f: hugeFiles[i], size: sz, list: []string{p}, fail: map[string]bool{}, young: true, payOnce: true})
+				}
+				return c03Run(env, fs, false, true)
 			}})
 		}
 	}
